@@ -67,23 +67,23 @@ class SymRng:
         if self.on_choice is not None:
             self.on_choice(rec, c)  # the oracle sees the call before numpy's own validation
         if n == 0:
-            raise ValueError("a cannot be empty unless no samples are taken")
+            raise core.emulated(ValueError("a cannot be empty unless no samples are taken"))
         if p is None:
             conds = [True] * n
         else:
             if len(pv) != n:
-                raise ValueError("a and p must have same size")
+                raise core.emulated(ValueError("a and p must have same size"))
             if any(x is NAN for x in pv):
-                raise ValueError("probabilities contain NaN")
+                raise core.emulated(ValueError("probabilities contain NaN"))
             ok = core.And(*[x >= 0 for x in pv])
             if not ok:
-                raise ValueError("probabilities are not non-negative")
+                raise core.emulated(ValueError("probabilities are not non-negative"))
             if self.check_sum:
                 total = pv[0]
                 for x in pv[1:]:
                     total = total + x
                 if not (total == 1):
-                    raise ValueError("probabilities do not sum to 1")
+                    raise core.emulated(ValueError("probabilities do not sum to 1"))
             thr = self.zero_threshold
             conds = [x > thr for x in pv]
         i = c.choose(conds, label="rng.choice")
